@@ -14,17 +14,41 @@ RULE = ("tie P (program capture): for every frame with (h+1)(w+1) <= 12 (thoroug
         "in posting order (incl. the whole block posted by _active_vertices_connected, resp. the operand list of the "
         "GRAPH_ACTIVE_VERTICES_CONNECTED node) and the two returned arrays (+ shapes) must equal those of the extracted "
         "post_crossable, token for token; the auxiliary graph (node count, edge list in insertion order) is compared "
-        "separately; a malformed stream puts IntExpr / int / None entries in the arrays (TypeError on both sides).  "
+        "separately; a malformed stream puts IntExpr / int / None entries in the arrays (TypeError on both sides); "
+        "call forms (frames up to 9 points, thorough 12): defaults omitted with the route taken from "
+        "config.use_graph_primitive, everything by keyword, use_graph_primitive=None under both configurations (and "
+        "the configuration set to the opposite value when the argument is given), the alias with and without its "
+        "option; histories: two calls on one Solver and one frame (same options / the opposite options / after "
+        "overwriting the arrays returned by the first call), the second call compared with the model started from "
+        "the state the first one left, the frame's arrays unchanged after each call; options passed by position must "
+        "be a TypeError or post the same program.  "
         "search: for every frame up to 2x2 plus 1x3, 3x1, 0x4 (thorough: 2x3, 3x2, 1x4, 4x1, 1x5, 0x6) and every subset "
         "of segments (frames with more than 12 (thorough 13) segments: every subset obeying the 0/1/2/4 rule + random "
-        "others), satisfiability of the really posted non-primitive program (own z3 translation, pattern fixed) and "
-        "the values forced on the two returned arrays vs an oracle written from the property text (segments as pairs "
-        "of lattice points, union-find of strands); primitive route: the non-graph constraints by z3, the posted "
-        "GRAPH_ACTIVE_VERTICES_CONNECTED node evaluated as connectivity of its decoded operands; the executable form "
+        "others), satisfiability of the really posted non-primitive program (own z3 translation, pattern given as "
+        "assumptions) and the values forced on the two returned arrays vs an oracle written from the property text "
+        "(segments as pairs of lattice points, union-find of strands); primitive route: the non-graph constraints by "
+        "z3, the posted GRAPH_ACTIVE_VERTICES_CONNECTED node evaluated as connectivity of its decoded operands "
+        "(refined by connectivity cuts until the model is connected or none is left); "
+        "frames just beyond (2x3, 3x2, 2x4, 4x2, 3x3, 3x4, 4x3; thorough + 2x5, 5x2, 4x4, 3x5, 5x3, 2x6): targeted "
+        "shapes -- every rectangle, figure-eights at every interior point (unit and frame-sized, both diagonals), the "
+        "same minus / plus one segment, bare 4-way points, curls, long open / closed trails through a point twice, "
+        "chains of squares, segment-disjoint rectangle pairs (corner contacts, crossings, apart), the whole cycle "
+        "space up to 9 cells (a sample beyond) with and without an added path, boustrophedon paths, all lines, dense "
+        "weaves, random trails and their one-segment toggles; on 2x3 / 3x2 every pattern obeying the degree rule that "
+        "has a 4-way point (quick: a third of them for paths); dense weaves (every interior point 4-way, more "
+        "segments than lattice points) on 4x4, 4x6, 6x4, 6x6 (thorough up to 8x6) with a z3 time limit, undecided "
+        "cases counted; the empty pattern on every frame 0..5 x 0..5 (thorough 0..6) incl. the alias: both arrays "
+        "forced false everywhere; every call form of the tie (alias, defaults omitted, config, keyword frame) and two "
+        "calls on one Solver and frame (same options: all four arrays; path constraint then the given one on the "
+        "other route: the conjunction) on all patterns of 1x1, 1x2, 2x1, 0x2 and targeted patterns of 2x2, 2x3, 3x2; "
+        "the pattern written into the frame's arrays as Python True / False (all segments / every other one) on all "
+        "patterns of 0x1, 1x1, 1x2 and targeted ones of 2x2, 2x3; a call that raises, returns other shapes or changes "
+        "the frame is a violation; the executable form "
         "of the Coq specification (crossable_spec_b, proved equivalent to crossable_spec) is run against the same "
-        "oracle on every pattern of these frames (kind spec-vs-oracle).  A case is "
-        "non-trivial when it is a distinct (frame, options, edge form) capture or a distinct (frame, options, "
-        "pattern) decision.")
+        "oracle on every pattern of the small frames and the targeted patterns of the larger ones (kind "
+        "spec-vs-oracle).  A case is "
+        "non-trivial when it is a distinct (frame, options, edge form, call form) capture or a distinct (frame, "
+        "options, pattern, variant) decision.")
 TRUSTED = [
     "reading of the property (Graph/Crossable.v: seg, segs_at, deg, degree_rule, continues, strand, crossable_spec, "
     "visited, crossing): horizontal[y, x] is the segment (y,x)-(y,x+1), vertical[y, x] the segment (y,x)-(y+1,x) "
@@ -1271,10 +1295,10 @@ def search_jobs(ctx):
                 take=None if (big or nseg <= 17) else 420)
     for (h, w) in [(2, 3), (3, 2)]:
         for (sc, prim) in both:
-            job([(h, w)], sc, prim, "crossing", 6000 if sc else 9000, stride=1 if (big or sc) else 3)
+            job([(h, w)], sc, prim, "crossing", 6000 if sc else 9000, stride=1)
     for (h, w) in weave_frames(ctx):
         for (sc, prim) in both:
-            job([(h, w)], sc, prim, "weave", 8000 if not prim else 2000, timeout_ms=20000 if big else 2500)
+            job([(h, w)], sc, prim, "weave", 8000 if not prim else 2000, timeout_ms=10000 if big else 2500)
     # (3) no segment drawn, on every frame size: both arrays forced false everywhere
     for (sc, prim) in both:
         for variant in ("plain", "alias") if sc else ("plain",):
